@@ -406,14 +406,38 @@ def joinedView (ts : Tables) (froms : List String) (cond : List Row → Except E
   | .ok srcs =>
     filterView (fun jr => cond (jctx jr)) ((crossJoin (srcs.map fun t => idRows t.rows 0)).map fun jr => (none, jr))
 
-/-- every SET item must name a table of the FROM clause that is also an update target
-    (checked per record of the view, hence only when the view is not empty) -/
-def checkSetTables (targets froms : List String) : List String → Except Err Unit
-  | [] => .ok ()
-  | n :: ns =>
-    if n ∉ froms then .error .fieldNotExist
-    else if n ∉ targets then .error .updFieldNotExist
-    else checkSetTables targets froms ns
+/-- Update's loop is row-major: for every record of the filtered joined view, for every SET item in order —
+    evaluate the value, find the item's table and column (FieldViewName), require the table to be an update
+    target, take the record's internal id of that table, refuse a second write of the same (table, id, column).
+    `scanSets` / `scanView` run exactly these checks in exactly this order (they decide WHICH error a failing
+    statement reports); the new tables themselves are computed per target by `updateTargets`. -/
+def scanSets (ts : Tables) (targets froms : List String) (jr : JRow) :
+    List (String × SetItem (List Row)) → List (String × Nat × Nat) → Except Err (List (String × Nat × Nat))
+  | [], touched => .ok touched
+  | (tn, s) :: rest, touched =>
+    match s.expr (jctx jr) with
+    | .error e => .error e
+    | .ok _ =>
+      match firstIdx tn froms, lookupT ts tn with
+      | some p, some t =>
+        match colIndex t.header s.field with
+        | .error e => .error e
+        | .ok j =>
+          if tn ∉ targets then .error .updFieldNotExist
+          else match jr[p]? with
+            | none => .error .ambiguous
+            | some x =>
+              if (tn, x.1, j) ∈ touched then .error .ambiguous
+              else scanSets ts targets froms jr rest ((tn, x.1, j) :: touched)
+      | _, _ => .error .fieldNotExist
+
+def scanView (ts : Tables) (targets froms : List String) (sets : List (String × SetItem (List Row))) :
+    List JRow → List (String × Nat × Nat) → Except Err Unit
+  | [], _ => .ok ()
+  | jr :: rest, touched =>
+    match scanSets ts targets froms jr sets touched with
+    | .error e => .error e
+    | .ok touched' => scanView ts targets froms sets rest touched'
 
 def updateTargets (ts : Tables) (froms : List String) (view : List JRow) (sets : List (String × SetItem (List Row))) :
     List String → Except Err (List Out)
@@ -491,7 +515,7 @@ def body (ts : Tables) : Stmt → Except Err (List Out)
     match joinedView ts froms cond with
     | .error e => .error e
     | .ok view =>
-      match (if view.isEmpty then (Except.ok () : Except Err Unit) else checkSetTables targets froms (sets.map Prod.fst)) with
+      match scanView ts targets froms sets (view.map Prod.snd) [] with
       | .error e => .error e
       | .ok _ => updateTargets ts froms (view.map Prod.snd) sets targets
   | .deleteMulti targets froms cond =>
